@@ -511,9 +511,13 @@ class ResourcePeriodicallyInterrupted(ResourceConstraint):
                     else:
                         # ...otherwise make sure the task does not overlap with any of time intervals
                         conds.append(
-                            z3.Xor(
-                                folded_start_task_i >= interval_upper_bound,
+                            z3.Or(
                                 folded_start_task_i + duration <= interval_lower_bound,
+                                z3.And(
+                                    folded_start_task_i >= interval_upper_bound,
+                                    folded_start_task_i + duration
+                                    <= interval_lower_bound + self.period,
+                                ),
                             )
                         )
 
